@@ -19,7 +19,7 @@ ID = "C11"
 RULE = (
     "(a) grids with elements on both sides of the antimeridian and at/near the poles x {nodes, edge centers, face centers} x trees {ball/spherical/haversine, "
     "ball/cartesian/euclidean, kd/cartesian/minkowski, kd/cartesian/chebyshev, kd/cartesian/manhattan, kd/spherical/minkowski} x a 10x10 lon/lat query lattice (poles, "
-    "lon=+-180, 0) plus the element positions themselves, as one batch, as single points, in degrees and radians x every k in 1..n x radii {0, half the minimum "
+    "lon=+-180, 0) plus the element positions themselves (radius queries: distances+indices, sort_results=True, indices only, count_only), as one batch, as single points, in degrees and radians x every k in 1..n x radii {0, half the minimum "
     "inter-element distance, median, pi/2, 3.0 rad}; (b) every sequence of <= d requests over 28 parameterisations (2 trees x 3 kinds x {spherical, cartesian, cartesian+"
     "other metric} + reconstruct variants) followed by k in {1, 3, n} queries. Every kNN query is issued as (distances+indices), indices only, breadth-first and dual-tree;  non-trivial = query whose k nearest elements lie on both sides of the antimeridian, or "
     "request sequences that change system/metric; distinct = (grid, kind, tree, query form, k)"
@@ -32,7 +32,7 @@ ASSUMPTIONS = [
     "radius queries: ball/spherical in degrees with in_radians=False, kd/spherical in radians with in_radians=True (the only unambiguous readings); radii within 1e-7 of an element distance are nudged",
 ]
 BOUNDS = {
-    "quick": "(a) 3 grids; (b) d=2 over all 28 requests and d=3 over the 12 plain requests of 4 trees, on 1 grid",
+    "quick": "(a) 3 grids + the 108 edge centres of a 3x3 cubed sphere (multi-leaf trees; k = 1, 10, 19, .., n); (b) d=2 over all 28 requests and d=3 over the 12 plain requests of 4 trees, on 1 grid",
     "thorough": "(a) 6 grids; (b) d=3 on 1 grid, d=2 on 2 more",
 }
 KINDS = ["nodes", "edge centers", "face centers"]
@@ -212,7 +212,7 @@ def run_lattice(case, res):
         return res
     info = "batch"
     am = 0
-    for k in range(1, n + 1):
+    for k in sorted(set(range(1, n + 1, case.get("kstep", 1))) | {n}):
         for radians in ((False, True) if tree[1] == "spherical" else (False,)):
             i2 = _check_knn(t, tree, kind, qlon, qlat, D, k, radians, False, bad, "batch")
             res["evaluations"] += len(qlon)
@@ -260,6 +260,26 @@ def run_lattice(case, res):
                 iv = np.asarray(ii).ravel().astype(int)
                 if len(iv) and not np.all(np.abs(dv - drow[iv]) <= _tol(tree, drow[iv])):
                     bad("c11:radius-distances:%s-%s-%s" % tree, "query_radius at (lon %.2f, lat %.2f) r=%g: distances %s for indices %s, brute force %s" % (qlon[qi], qlat[qi], r_arg, dv.tolist(), iv.tolist(), drow[iv].tolist()))
+                    continue
+                # the other documented call forms: sorted results (nearest first, distance j belongs to index j), indices only, count only
+                try:
+                    kw = {"in_radians": radians} if system == "spherical" else {}
+                    ds_, is_ = t.query_radius(coords, r=r_arg, return_distance=True, sort_results=True, **kw)
+                    i_only = t.query_radius(coords, r=r_arg, **kw)
+                    cnt = t.query_radius(coords, r=r_arg, count_only=True, **kw)
+                except Exception as e:
+                    bad("c11:radius-raises:%s" % type(e).__name__, "query_radius(r=%g) call forms raised %r" % (r_arg, e))
+                    continue
+                dsv = np.asarray(ds_, dtype=float).ravel()
+                if system == "spherical" and not radians:
+                    dsv = np.deg2rad(dsv)
+                isv = np.asarray(is_).ravel().astype(int)
+                if set(isv.tolist()) != want or (len(isv) and not np.all(np.abs(dsv - drow[isv]) <= _tol(tree, drow[isv]))) or np.any(np.diff(dsv) < -1e-12):
+                    bad("c11:radius-sorted:%s-%s-%s" % tree, "query_radius(sort_results=True) at (lon %.2f, lat %.2f) r=%g: indices %s with distances %s; brute force distances of those indices %s" % (qlon[qi], qlat[qi], r_arg, isv.tolist()[:8], dsv.tolist()[:8], drow[isv].tolist()[:8]))
+                if set(np.asarray(i_only).ravel().astype(int).tolist()) != want:
+                    bad("c11:radius-set:%s-%s-%s" % tree, "query_radius (indices only) at (lon %.2f, lat %.2f) r=%g: got %s, brute force %s" % (qlon[qi], qlat[qi], r_arg, sorted(np.asarray(i_only).ravel().tolist()), sorted(want)))
+                if int(np.asarray(cnt).ravel()[0]) != len(want):
+                    bad("c11:radius-count:%s-%s-%s" % tree, "query_radius(count_only=True) at (lon %.2f, lat %.2f) r=%g: %s, brute force %d" % (qlon[qi], qlat[qi], r_arg, cnt, len(want)))
     key = digest(("lattice", case["mesh"], kind, tree))
     res["states"].append(key)
     if am or tree[1] == "cartesian":
@@ -348,6 +368,9 @@ def cases(tier):
         for kind in KINDS:
             for tree in TREES:
                 out.append({"kind_": "lattice", "mesh": mesh, "kind": kind, "tree": list(tree)})
+    # one element set with more than 2 x 40 members (sklearn's default leaf size: multi-leaf trees traverse differently)
+    for tree in TREES:
+        out.append({"kind_": "lattice", "mesh": "cs3", "kind": "edge centers", "tree": list(tree), "kstep": 9})
     nreq = len(_requests())
     hl = [("amstrip", 2)] if tier == "quick" else [("amstrip", 3), ("polefan", 2), ("cube", 2)]
     for mesh, d in hl:
